@@ -1396,6 +1396,13 @@ func c07JudgeTop(c *Ctx, p *c07Pipe, src string, paths []string) {
 		return
 	}
 	if err := c07CallGraphPaths(full, paths); err != nil {
+		if strings.Contains(err.Error(), "disabled cannot be bound to a null value") {
+			// BY DESIGN (resolveDisableExp): a `disabled` modifier that is null when the program is invoked is
+			// refused; null conforms to bool, so the compile-time rules accept it.  The checked semantics of the
+			// model stops there too (Res.nullDisabled, Props.C07.disabled_null_witness; compared in c07DisabledRuntime).
+			r.hist("top_static_null_disabled_refused_by_design")
+			return
+		}
 		key := "C07:top:accepted-but-callgraph-fails"
 		if strings.Contains(err.Error(), "cannot be bound inside an untyped map") || strings.Contains(err.Error(), "cannot be assinged to untyped map: contains reference") {
 			key = c07UntypedMapKey
@@ -1967,6 +1974,7 @@ func c07DisabledRuntime(c *Ctx) {
 func c07Pipelines(c *Ctx) {
 	c07PreflightWitness(c)
 	c07DisabledRuntime(c)
+	c07MergeUntypedMapStream(c)
 	c07UntypedMapWitness(c)
 	c07WildArityStream(c)
 	c07UnusedInputStream(c)
